@@ -1,0 +1,8 @@
+//go:build verif
+
+package cmd
+
+// Contracts checked by /verif (vcgo). Comment-only: no executable code.
+
+//@ func isSmellHaveSize
+//@ ensures result <==> (key == "largeClass" || key == "repeatedSwitches" || key == "longParameterList" || key == "longMethod" || key == "dataClass")
